@@ -3,6 +3,8 @@ from pyvc.dsl import *
 from contracts import locks as _l   # noqa: F401
 
 DEAD_NEW = "forall_new(Interrupt, lambda i: i.sub is None and (i._revoked or not i.scheduled))"
+default_scope(["Notification", "Interrupt.parked_or_scheduled", "Lock", "Interrupt.live_lock_wakeup_is_owner", "Queue"])
+
 
 from pyvc.dsl import REG
 REG.models["Notification"].ghost["queue"] = OPT(REF("Queue"))
